@@ -1,206 +1,10 @@
 /-
-Table obligations: the ONLY facts about the generated decision tables (Generated.lean, rewritten
-from /repo/src on every run) that the invariant proofs use.  A harmless rewrite of a Rust `match`
-yields an extensionally equal Lean table and every proof below still closes; a harmful one fails at
-a theorem whose name says what was lost.
+All table obligations (see Tables/*.lean, split by topic).
 -/
-import DesyncModel.Types
-import DesyncModel.Generated
-
-namespace Desync
-open Gen
-
-/-! ### is_running -/
-
-theorem isRunning_spec (s : QState) :
-    isRunning s = true ↔ (s = .running ∨ s = .awokenWhileRunning ∨ s = .waitingForUnpark ∨ ∃ f, s = .waitingForPoll f) := by
-  cases s <;> simp [isRunning]
-
-/-! ### entry points refuse a panicked queue (C15) -/
-
-theorem desyncPush_panicked : desyncPush .panicked = (.panicked, .panic) := rfl
-theorem syncDecide_panicked (e : Bool) : syncDecide .panicked e = (.panicked, .panic) := by cases e <;> rfl
-theorem trySyncDecide_panicked (e : Bool) : trySyncDecide .panicked e = (.panicked, .panic) := by cases e <;> rfl
-theorem pollDecide_panicked (self : Nat) : (pollDecide self .panicked).2.1 = .panic ∧ (pollDecide self .panicked).1 = .panicked := ⟨rfl, rfl⟩
-/-- `sync_no_panic` (Drop while unwinding) neither runs, blocks nor panics on a panicked queue. -/
-theorem syncNoPanic_panicked (e : Bool) : syncNoPanicDecide .panicked e = (.panicked, .refuse) := by cases e <;> rfl
-
-/-- Only a panicked queue makes an entry point panic. -/
-theorem desyncPush_panics_iff (s : QState) : (desyncPush s).2 = .panic ↔ s = .panicked := by
-  cases s <;> simp [desyncPush]
-theorem syncDecide_panics_iff (s : QState) (e : Bool) : (syncDecide s e).2 = .panic ↔ s = .panicked := by
-  cases s <;> cases e <;> simp [syncDecide]
-theorem trySyncDecide_panics_iff (s : QState) (e : Bool) : (trySyncDecide s e).2 = .panic ↔ s = .panicked := by
-  cases s <;> cases e <;> simp [trySyncDecide]
-theorem pollDecide_panics_iff (self : Nat) (s : QState) : (pollDecide self s).2.1 = .panic ↔ s = .panicked := by
-  cases s <;> simp [pollDecide]
-  split <;> simp
-
-/-- No table ever leaves the panicked state: it is absorbing. -/
-theorem panicked_absorbing :
-    (desyncPush .panicked).1 = .panicked ∧ (∀ e, (syncDecide .panicked e).1 = .panicked) ∧
-    (∀ e, (syncNoPanicDecide .panicked e).1 = .panicked) ∧ (∀ e, (trySyncDecide .panicked e).1 = .panicked) ∧
-    (∀ f, (pollDecide f .panicked).1 = .panicked) ∧ (claim .panicked).1 = .panicked ∧
-    (∀ e, (reschedule .panicked e).1 = .panicked) ∧ (nextToRun .panicked).1 = .panicked ∧
-    (drainPending .panicked).1 = .panicked ∧ (∀ e, (drainExit .panicked e).1 = .panicked) ∧
-    (wakeQueue .panicked).1 = .panicked ∧ wakeThread .panicked = .panicked := by
-  refine ⟨rfl, ?_, ?_, ?_, ?_, rfl, ?_, rfl, rfl, ?_, rfl, rfl⟩ <;> intro e <;> cases e <;> rfl
-
-/-- Nothing is claimed, scheduled or run from a panicked queue. -/
-theorem panicked_never_claimed :
-    (claim .panicked).2 = false ∧ (nextToRun .panicked).2 = false ∧ (∀ e, (reschedule .panicked e).2 = false) := by
-  refine ⟨rfl, rfl, ?_⟩; intro e; cases e <;> rfl
-
-/-! ### the run right is handed out only from unowned states (C01) -/
-
-/-- `sync` starts running the queue on the caller (immediate / drain) only from idle or pending,
-and then marks it running; in every other state it leaves the state alone and waits. -/
-theorem syncDecide_claims (s : QState) (e : Bool) :
-    ((syncDecide s e).2 = .immediate ∨ (syncDecide s e).2 = .drain) →
-      s.claimable = true ∧ (syncDecide s e).1 = .running := by
-  cases s <;> cases e <;> simp [syncDecide, QState.claimable]
-
-theorem syncDecide_background_unchanged (s : QState) (e : Bool) :
-    (syncDecide s e).2 = .background → (syncDecide s e).1 = s ∧ s.owned = true := by
-  cases s <;> cases e <;> simp [syncDecide, QState.owned]
-
-theorem syncDecide_total (s : QState) (e : Bool) :
-    (syncDecide s e).2 = .immediate ∨ (syncDecide s e).2 = .drain ∨ (syncDecide s e).2 = .background ∨ (syncDecide s e).2 = .panic := by
-  cases s <;> cases e <;> simp [syncDecide]
-
-/-- Immediate execution (no job queued) only when the queue is idle AND empty (C02). -/
-theorem syncDecide_immediate_iff (s : QState) (e : Bool) :
-    (syncDecide s e).2 = .immediate ↔ (s = .idle ∧ e = true) := by
-  cases s <;> cases e <;> simp [syncDecide]
-
-theorem syncNoPanic_agrees (s : QState) (e : Bool) (h : s ≠ .panicked) : syncNoPanicDecide s e = syncDecide s e := by
-  cases s <;> cases e <;> simp_all [syncDecide, syncNoPanicDecide]
-
-/-- `try_sync`: runs only when idle and empty; otherwise Busy and the state is untouched (C09). -/
-theorem trySync_immediate_iff (s : QState) (e : Bool) :
-    (trySyncDecide s e).2 = .immediate ↔ (s = .idle ∧ e = true) := by
-  cases s <;> cases e <;> simp [trySyncDecide]
-
-theorem trySync_immediate_running (s : QState) (e : Bool) :
-    (trySyncDecide s e).2 = .immediate → (trySyncDecide s e).1 = .running := by
-  cases s <;> cases e <;> simp [trySyncDecide]
-
-theorem trySync_busy_undisturbed (s : QState) (e : Bool) :
-    (trySyncDecide s e).2 = .busy → (trySyncDecide s e).1 = s := by
-  cases s <;> cases e <;> simp [trySyncDecide]
-
-theorem trySync_never_waits (s : QState) (e : Bool) :
-    (trySyncDecide s e).2 = .immediate ∨ (trySyncDecide s e).2 = .busy ∨ (trySyncDecide s e).2 = .panic := by
-  cases s <;> cases e <;> simp [trySyncDecide]
-
-
-/-- `claim_pending_queue` -/
-theorem claim_spec (s : QState) :
-    ((claim s).2 = true → s.claimable = true ∧ (claim s).1 = .running) ∧
-    ((claim s).2 = false → (claim s).1 = s) ∧ (s.claimable = true → (claim s).2 = true) := by
-  cases s <;> simp [claim, QState.claimable]
-
-/-- `next_to_run`: a pool thread takes a queue only if it is pending, or parked under a polling
-task (`waitingForPoll`: the race arm); it then marks it running. Other entries are dropped unchanged. -/
-theorem nextToRun_spec (s : QState) :
-    ((nextToRun s).2 = true → (s = .pending ∨ ∃ f, s = .waitingForPoll f) ∧ (nextToRun s).1 = .running) ∧
-    ((nextToRun s).2 = false → (nextToRun s).1 = s) ∧
-    (s = .pending → (nextToRun s).2 = true) := by
-  cases s <;> simp [nextToRun]
-
-/-- `SchedulerFuture::poll`: the polling task starts draining only from idle, pending, or its OWN
-`waitingForPoll`; it then marks the queue running and does not store its waker; in all other
-(non-panicked) states it stores the waker and waits, leaving the state alone. -/
-theorem pollDecide_spec (self : Nat) (s : QState) :
-    ((pollDecide self s).2.1 = .drain → (s.claimable = true ∨ s = .waitingForPoll self) ∧ (pollDecide self s).1 = .running
-        ∧ (pollDecide self s).2.2 = false) ∧
-    ((pollDecide self s).2.1 = .wait → (pollDecide self s).1 = s ∧ (pollDecide self s).2.2 = true ∧ s.owned = true) := by
-  cases s <;> simp [pollDecide, QState.claimable, QState.owned]
-  split <;> simp_all
-
-theorem pollDecide_other_waits (self f : Nat) (h : f ≠ self) :
-    pollDecide self (.waitingForPoll f) = (.waitingForPoll f, .wait, true) := by
-  simp [pollDecide, h]
-
-/-! ### jobs are taken from the front only while the queue is not parked (C01, C02) -/
-
-theorem dequeue_refuses_parked (s : QState) :
-    dequeueAllowed s = false ↔ (s = .waitingForWake ∨ s = .waitingForUnpark ∨ ∃ f, s = .waitingForPoll f) := by
-  cases s <;> simp [dequeueAllowed]
-
-
-/-! ### queuing a job (C03) -/
-
-theorem desyncPush_spec (s : QState) :
-    ((desyncPush s).2 = .schedule ↔ s = .idle) ∧ (s = .idle → (desyncPush s).1 = .pending) ∧
-    (s ≠ .idle → (desyncPush s).1 = s) := by
-  cases s <;> simp [desyncPush]
-
-/-! ### handing the queue back (C03, C04) -/
-
-theorem reschedule_spec (s : QState) (e : Bool) :
-    (s = .idle ∧ e = false → reschedule s e = (.pending, true)) ∧
-    (s = .idle ∧ e = true → reschedule s e = (.idle, false)) ∧
-    ((reschedule s e).2 = true → (s = .idle ∧ e = false) ∨ ∃ f, s = .waitingForPoll f) ∧
-    (s ≠ .idle → (reschedule s e).1 = s) := by
-  cases s <;> cases e <;> simp [reschedule]
-
-theorem drainExit_spec (s : QState) (e : Bool) :
-    (isRunning s = true ∧ e = true → drainExit s e = (.idle, true)) ∧
-    (isRunning s = true ∧ e = false → drainExit s e = (s, false)) := by
-  cases s <;> cases e <;> simp [drainExit, isRunning]
-
-/-! ### a wake-up is never lost by a table (C06) -/
-
-theorem wake_while_running_is_remembered :
-    (wakeQueue .running).1 = .awokenWhileRunning ∧ wakeThread .running = .awokenWhileRunning ∧
-    (wakeQueue .awokenWhileRunning).1 = .awokenWhileRunning ∧ wakeThread .awokenWhileRunning = .awokenWhileRunning := by
-  simp [wakeQueue, wakeThread]
-
-/-- A remembered wake is consumed by polling again, never by parking. -/
-theorem remembered_wake_repolls :
-    drainPending .awokenWhileRunning = (.running, false) ∧ runOnePending .awokenWhileRunning = (.running, .continue) ∧
-    parkCheck .awokenWhileRunning = .continue ∧ parkCheck .running = .continue := by
-  simp [drainPending, runOnePending, parkCheck]
-
-/-- Parking: pool drain parks as `waitingForWake` and returns; a caller parks as `waitingForUnpark`. -/
-theorem parking_states :
-    drainPending .running = (.waitingForWake, true) ∧ runOnePending .running = (.waitingForUnpark, .park) ∧
-    parkCheck .waitingForUnpark = .park := by
-  simp [drainPending, runOnePending, parkCheck]
-
-/-- Waking a parked queue: pool-parked → idle + reschedule; caller-parked → running (+ unpark). -/
-theorem wake_parked :
-    wakeQueue .waitingForWake = (.idle, true) ∧ wakeThread .waitingForUnpark = .running ∧ wakeThreadUnparks = true ∧
-    (∀ f, wakeQueue (.waitingForPoll f) = (.waitingForPoll f, true)) ∧
-    (∀ f e, reschedule (.waitingForPoll f) e = (.waitingForPoll f, true)) ∧
-    (∀ f, nextToRun (.waitingForPoll f) = (.running, true)) := by
-  refine ⟨rfl, rfl, rfl, fun _ => rfl, ?_, fun _ => rfl⟩
-  intro f e; cases e <;> rfl
-
-/-- A stale queue waker must not disturb a caller-side park. -/
-theorem wakeQueue_leaves_unpark : wakeQueue .waitingForUnpark = (.waitingForUnpark, false) := rfl
-
-/-- The `DrainWaker` latch: a wake that arrives before the real waker is installed fires it at
-installation; a wake after installation fires the stored waker; nothing fires twice. -/
-theorem latch_spec :
-    latchWakeWith .woken = (.woken, true) ∧ latchWakeWith .notWoken = (.willWake, false) ∧
-    latchWakeWith .willWake = (.willWake, false) ∧
-    latchWake .notWoken = (.woken, false) ∧ latchWake .willWake = (.woken, true) ∧ latchWake .woken = (.woken, false) := by
-  simp [latchWakeWith, latchWake]
-
-/-! ### the pool (C17, C03, C15) -/
-
-theorem spawn_only_below_max (len max : Nat) : spawnAllowed len max = true ↔ len < max := by
-  simp [spawnAllowed]
-
-theorem despawn_down_to_max (len max : Nat) : despawnContinues len max = true ↔ max < len := by
-  simp [despawnContinues]
-
-/-- The dormant scan waits for a thread's busy flag (a held flag is not mistaken for "busy"). -/
-theorem dormant_scan_blocks : dormantScanBlocks = true := rfl
-theorem dormant_reaps_first : dormantReapsFirst = true := rfl
-
-
-
-end Desync
+import DesyncModel.Tables.Panic
+import DesyncModel.Tables.Sync
+import DesyncModel.Tables.TrySync
+import DesyncModel.Tables.Claim
+import DesyncModel.Tables.Push
+import DesyncModel.Tables.Wake
+import DesyncModel.Tables.Pool
